@@ -690,7 +690,56 @@ func stopPaths(r *lib.Run, idx int) {
 	w.verdict("stop:inbound-side", "inbound", 150*time.Second, nil)
 }
 
+// stopRacesGossip: the networks' content loops hand validated content to Gossip on goroutines of their own
+// (go func() { Gossip(...) }), so gossip calls race with, and can come after, Stop(). Whatever slots such calls take
+// must come back as well.
+func stopRacesGossip(r *lib.Run, idx int) {
+	limit := 300
+	w, err := newWorld(r, idx, limit, 8, 150*time.Millisecond)
+	if err != nil {
+		r.FloorMiss("world: %v", err)
+		return
+	}
+	defer w.close()
+	for i, p := range w.peers {
+		p.mode.Store([]string{"silent", "accept-ignore", "accept-serve"}[i%3])
+		w.node.P.AddEnr(p.adv.Self())
+	}
+	var wg sync.WaitGroup
+	var calls atomic.Int64
+	stopAt := 5 + idx%7
+	for g := 0; g < 4; g++ {
+		wg.Add(1)
+		go func(g int) {
+			defer wg.Done()
+			for i := 0; i < 12; i++ {
+				_, _ = w.node.P.GossipAndReturnPeers(nil, [][]byte{{0x00, byte(g), byte(i), 6}}, [][]byte{make([]byte, 50)})
+				calls.Add(1)
+				time.Sleep(time.Duration(50+37*g) * time.Microsecond)
+			}
+		}(g)
+	}
+	for calls.Load() < int64(stopAt) {
+		time.Sleep(20 * time.Microsecond)
+	}
+	w.protocolStopped = true
+	w.node.P.Stop()
+	before := calls.Load()
+	wg.Wait()
+	r.Count("gossip_calls_before_stop_returned", int(before))
+	r.Count("gossip_calls_after_stop_returned", int(calls.Load()-before))
+	if calls.Load() > before {
+		r.Distinct(fmt.Sprintf("stop-races-gossip-%d", idx))
+	}
+	w.verdict("stop:gossip-calls-around-and-after-stop", "outbound", 150*time.Second, map[string]any{"gossip_calls_after_stop": calls.Load() - before})
+}
+
 func run(r *lib.Run) {
+	defer func() {
+		for i := 0; i < r.Pick(2, 10); i++ {
+			stopRacesGossip(r, 900+i)
+		}
+	}()
 	pnode.Quiet()
 	r.SetRule("fault enumeration over the exit paths of an offer. Outbound (node offers to a scripted peer, permit taken through the node's own controller): peer declines, empty reply, wrong code, undecodable accept, wrong verdict count, accepted+served, accepted then connection closed at once, accepted but nobody listens on the announced id, silent peer, offers that cannot be encoded (65 keys, 3000-byte key; also through gossip), slot still taken while every accepted transfer is pending; " +
 		"gossip rounds to 8 peers with mixed outcomes (bound on simultaneously open exchanges), gossip beyond the offer-queue capacity with every worker blocked, Stop() with offers queued and in progress. Inbound (scripted peers offer, all slots taken at once by different peers): success, garbage stream, wrong item count, dialled and closed, never dialled, limit 0. Limits 0, 1, 2, 50 (+1400 / 300 for the queue and stop paths). " +
